@@ -80,7 +80,9 @@ ProgOf(k) == LET f == k % Families  j == k \div Families IN
 AllOpts == [x \in 1..256 |-> x - 1]
 Spread(k) == <<0, 1, 3, 8, 16, 19, 32, 33, 64 + (k % 2) * 8, 127, 95, (k * 37) % 128, 128, 130, 160, 128 + ((k * 11) % 128)>>
 Case(k) == [prog |-> ProgOf(k), forms |-> IF k % Families = 5 THEN FormsOf(k \div Families) ELSE [Fm0 |-> <<>>], f2map |-> F2Map,
-            opts |-> IF k % 7 = 0 THEN AllOpts ELSE Spread(k), flate |-> k % 2 = 1]
+            opts |-> IF k % 7 = 0 THEN AllOpts ELSE Spread(k), flate |-> k % 2 = 1,
+            \* the ToUnicode CMap written with bfchar entries only, or with bfrange (offset and array forms) where CIDs run
+            cmapRanges |-> (k \div 8) % 2 = 1]
 
 VARIABLE done
 Init == done = FALSE
